@@ -126,3 +126,23 @@ mod test {
         }
     }
 }
+
+/// Verification hooks (compiled only under `cfg(kani)` or
+/// `--cfg dsi_bitstream_verif`): build an iterator in an arbitrary internal
+/// state and read the internal state back.
+#[cfg(any(kani, dsi_bitstream_verif))]
+impl<F: Fn(u64) -> usize> FindChangePoints<F> {
+    #[doc(hidden)]
+    pub fn verif_from_parts(func: F, current: u64, prev_value: usize) -> Self {
+        Self {
+            func,
+            current,
+            prev_value,
+        }
+    }
+
+    #[doc(hidden)]
+    pub fn verif_parts(&self) -> (u64, usize) {
+        (self.current, self.prev_value)
+    }
+}
